@@ -2109,8 +2109,8 @@ fn run_inner(cfg: &Config, trace: &[Op]) -> RunResult {
     });
     let class = cfg.subject.class();
     with(|w| {
-        w.nd_children = cfg.shape & 1 != 0 && matches!(class, Class::Collection | Class::Join);
-        w.raw_outputs = cfg.shape & 2 != 0 && cfg.shape & 4 == 0 && matches!(class, Class::Collection | Class::Join);
+        w.nd_children = cfg.shape & 1 != 0;
+        w.raw_outputs = cfg.shape & 2 != 0 && cfg.shape & 4 == 0 && cfg.subject != SubjectKind::FEC;
         w.inexact_iter = cfg.inexact_iter;
         w.src_hints = cfg.src_hints;
         w.limit = cfg.cap;
